@@ -1,5 +1,6 @@
 import SsoSpec.C07
 import SsoSpec.C04
+import SsoSpec.C16
 
 /-!
 # C19 — sign-out really signs out
@@ -40,6 +41,18 @@ theorem C19_skeleton_SignOut : Sso.Generated.skel_auth_SignOut =
      "switch{", "case nil{", "break", "}", "case http.ErrNoCookie{", "call:Redirect", "return", "}",
      "default{", "call:Error", "call:ClearSession", "call:Redirect", "return", "}", "}",
      "call:Revoke", "if{", "call:append", "call:Incr", "call:Error", "call:SignOutPage", "return", "}", "call:ClearSession", "call:Redirect"] := by decide
+
+/-- Tie (T1): concurrent revocations are coalesced **by access token** (`SingleFlightProvider.Revoke`, key expression
+regenerated from the source) … -/
+theorem C19_revoke_keyed_by_token :
+    Sso.Generated.sf_keys_auth.lookup "Revoke" = some "s.AccessToken" := by decide
+
+/-- … so a sign-out's revocation can only be merged into a revocation of the *same token*: two sessions of one user
+(two devices, two token pairs) signing out at the same time each get their own call to the identity provider.
+(`compositeKey` is the `endpoint/key` string the single-flight group is indexed by; instance of C16's key injectivity.) -/
+theorem C19_revoke_merged_only_for_same_token {α : Type} (slash : α) (revoke tok₁ tok₂ : List α) (h : slash ∉ revoke)
+    (hk : Sso.SfWrappers.compositeKey slash revoke tok₁ = Sso.SfWrappers.compositeKey slash revoke tok₂) : tok₁ = tok₂ :=
+  (Sso.SfWrappers.C16_composite_key_injective slash revoke revoke tok₁ tok₂ h h hk).2
 
 end Sso.AuthN
 
